@@ -58,6 +58,13 @@ XMutOK ==
         (p.ok /\ ~p.trailing) => LET o == DecX(Sn, p.e) IN
                 /\ o.cls \in Classes
                 /\ o.cls \in {"tree", "either"} => Conforms(Sn, o.t) = "" /\ NotAltered(Sn, o.t, XLitsOf(p.e))
+XNsOK ==
+  \A m \in XNsMutants(EncX(Sn, tree)) :
+     LET p == XParse(m)
+         o == DecX(Sn, p.e) IN
+     /\ p.ok /\ ~p.trailing /\ o.cls \in Classes
+     /\ o.cls \in {"tree", "either"} => Conforms(Sn, o.t) = "" /\ NotAltered(Sn, o.t, XLitsOf(p.e))
+MutantsNs == (picked /\ Cardinality(si) <= MutMax /\ FullTrees(si) # {} /\ tree = BigTree(si)) => XNsOK
 MutantsRFC == (picked /\ IsFull) => JMutOK(TRUE)
 MutantsJSON == (picked /\ IsFull) => JMutOK(FALSE)
 MutantsXML == (picked /\ IsFull) => XMutOK
